@@ -27,7 +27,10 @@ RULE = ("random DAGs with 1..6 nodes, node names str / int / mixed with insertio
         "predict for EVERY missing subset of size 1..3 (and all-missing for n<=3) with 1..3 dyadic data rows, "
         "shuffled frame columns and an irrelevant extra column, vs model and vs an independent np.ix_ "
         "conditional-Gaussian computation, compared per named variable; fit on dyadic data of full column rank "
-        "vs model (normal equations) and np.linalg.lstsq, variance vs RSS/(n-1); GaussianDistribution "
+        "vs model (normal equations) and np.linalg.lstsq, variance vs RSS/(n-1), plus an INDEX stream: the same rows "
+        "under RangeIndex / shifted (400..) / permuted / reversed / gapped / duplicate / string row labels on DAGs "
+        "whose nodes have 1..3 parents (the index is not data: coefficients, intercept and variance of every node must "
+        "equal the model's); GaussianDistribution "
         "marginalize (every subset) / reduce (every proper subset, shuffled value order) / to_canonical_factor "
         "(K, h, g) / canonical round trip / product & divide with an overlapping second scope, vs model and numpy "
         "formulas; plus a malformed stream (no missing variable, evidence that is not an earlier node, unknown "
@@ -150,6 +153,57 @@ def gen_fit(rng):
             "extra": rng.random() < 0.4}
 
 
+INDEX_KINDS = ["range", "shifted", "permuted", "reversed", "gapped", "duplicate", "string"]
+
+
+def gen_fit_index(rng):
+    """fit() on the same rows under different pandas row indexes; DAG in which nodes have 1..3 parents"""
+    n = rng.randint(3, 5)
+    order = list(range(n))
+    rng.shuffle(order)
+    edges = []
+    for j in range(1, n):
+        k = rng.randint(1, min(3, j))                 # node order[j] gets 1..3 parents among the earlier ones
+        for u in rng.sample(order[:j], k):
+            edges.append([u, order[j]])
+    rng.shuffle(edges)
+    nodes = list(range(n))
+    rng.shuffle(nodes)
+    N = rng.randint(6, 14)
+    cols = list(range(n))
+    rng.shuffle(cols)
+    rows = [[jf(dy(rng, -4, 4)) for _ in range(n)] for _ in range(N)]
+    return {"kind": "fit", "n": n, "nodes": nodes, "edges": edges, "style": rng.choice(["str", "int"]),
+            "nameseed": rng.randint(0, 10**9), "cols": cols, "rows": rows, "extra": rng.random() < 0.3,
+            "indexes": list(INDEX_KINDS), "iseed": rng.randint(0, 10**9)}
+
+
+def make_index(kind, N, iseed):
+    """row labels of the data frame: the index is not data, fit must not depend on it"""
+    rng = random.Random("%s/%d" % (kind, iseed))
+    if kind == "range":
+        return None
+    if kind == "shifted":
+        return list(range(400, 400 + N))
+    if kind == "permuted":
+        while True:
+            lab = list(range(N))
+            rng.shuffle(lab)
+            if lab != list(range(N)):
+                return lab
+    if kind == "reversed":
+        return list(range(N - 1, -1, -1))
+    if kind == "gapped":
+        return sorted(rng.sample(range(1, 3 * N + 5), N))
+    if kind == "duplicate":
+        return [rng.randrange(max(2, N // 2)) for _ in range(N)]
+    if kind == "string":
+        lab = ["r%02d" % i for i in range(N)]
+        rng.shuffle(lab)
+        return lab
+    raise ValueError(kind)
+
+
 def rand_pd(rng, n):
     """exact dyadic positive-definite matrix L D L^T"""
     L = [[Fraction(0)] * n for _ in range(n)]
@@ -250,6 +304,8 @@ def cases(tier, seed):
         out.append(gen_lgbn(rng, nmax=6, style="mixed") if rng.random() < 0.5 else gen_lgbn(rng, nmax=3))
     for _ in range(70 * k):
         out.append(gen_fit(rng))
+    for _ in range(40 * k):
+        out.append(gen_fit_index(rng))
     for _ in range(90 * k):
         out.append(gen_gauss(rng))
     for i in range(140 * k):
@@ -294,6 +350,11 @@ def shrink(case):
                 c["steps"] = st[:i] + st[i + 1:]
                 if c["steps"]:
                     yield c
+    if case["kind"] == "fit" and len(case.get("indexes", [])) > 1:
+        for kind_ in case["indexes"]:
+            c = dict(case)
+            c["indexes"] = [kind_]
+            yield c
     if case["kind"] == "fit":
         for (u, w) in case["edges"]:
             c = dict(case)
@@ -502,9 +563,6 @@ def run_fit(case, drv):
     n = case["n"]
     names = names_for(n, case["style"], case["nameseed"])
     idx = {repr(nm): i for i, nm in enumerate(names)}
-    m = LinearGaussianBayesianNetwork()
-    m.add_nodes_from([names[v] for v in case["nodes"]])
-    m.add_edges_from([(names[u], names[v]) for u, v in case["edges"]])
     cols = list(case["cols"])
     rows = [[fr(x) for x in r] for r in case["rows"]]
     N = len(rows)
@@ -518,12 +576,36 @@ def run_fit(case, drv):
         for i in range(N):
             frame_rows[i].append(float(i))
             mrows[i].append(Fraction(i))
-    df = pd.DataFrame(frame_rows, columns=pd.Index(frame_cols, dtype=object))
-    m.fit(df)
     tags = ["fit n=%d" % n, "rows=%d" % N, "style=" + case["style"]]
+    col = {v: np.array([float(r[cols.index(v)]) for r in rows]) for v in range(n)}
+    nontrivial = False
+    model_fit = {}
+    for ikind in case.get("indexes", ["range"]):
+        labels = make_index(ikind, N, case.get("iseed", 0))
+        df = pd.DataFrame(frame_rows, columns=pd.Index(frame_cols, dtype=object),
+                          index=None if labels is None else pd.Index(labels))
+        m = LinearGaussianBayesianNetwork()
+        m.add_nodes_from([names[v] for v in case["nodes"]])
+        m.add_edges_from([(names[u], names[v]) for u, v in case["edges"]])
+        m.fit(df)
+        b = _check_fit(case, m, idx, N, col, mcols, mrows, drv, tags, ikind, model_fit)
+        if isinstance(b, dict):
+            return b
+        nontrivial = nontrivial or b
+        if "indexes" in case:
+            tags.append("fit-index=" + ikind)
+    key = common.canon_key(["fit", n, sorted(map(tuple, case["edges"])), case["rows"], case["cols"],
+                            case.get("indexes"), case.get("iseed")])
+    return ok(nontrivial=nontrivial, key=key, tags=tags)
+
+
+def _check_fit(case, m, idx, N, col, mcols, mrows, drv, tags, ikind, model_fit):
+    """every fitted CPD (coefficients, intercept, variance) vs lstsq / RSS/(N-1) and vs the model; the row index
+    `ikind` of the frame is not data.  Returns a bad(...) outcome or the non-triviality flag."""
+    import numpy as np
+    n = case["n"]
     if len(m.cpds) != n:
         return bad("impl!=spec:fit-cpd-count", {"cpds": len(m.cpds)})
-    col = {v: np.array([float(r[cols.index(v)]) for r in rows]) for v in range(n)}
     nontrivial = False
     for c in m.cpds:
         v = idx[repr(c.variable)]
@@ -543,23 +625,25 @@ def run_fit(case, drv):
         res = col[v] - X @ sol
         svar = float(res @ res) / (N - 1)
         if not all(close(b, s, TOL) for b, s in zip(beta, sol)) or not close(c.variance, svar, TOL):
-            return bad("impl!=spec:fit-lstsq", {"node": v, "evidence": ev, "impl": [beta, float(c.variance)],
+            return bad("impl!=spec:fit-lstsq", {"index": ikind, "node": v, "evidence": ev, "impl": [beta, float(c.variance)],
                                                   "spec": [sol.tolist(), svar]})
-        st, mr = drv.call_e("c20_fit", [mcols, mrows, v, ev])
+        if (v, tuple(ev)) not in model_fit:
+            model_fit[(v, tuple(ev))] = drv.call_e("c20_fit", [mcols, mrows, v, ev])
+        st, mr = model_fit[(v, tuple(ev))]
         if st != "ok":
             return bad("impl!=model:fit-model-error", {"node": v, "code": mr})
         mb, mv = fvec(mr[0]), fr(mr[1])
         if len(mb) != len(beta) or not all(close(b, s, TOL) for b, s in zip(beta, mb)) or not close(c.variance, mv, TOL):
-            return bad("impl!=model:fit", {"node": v, "evidence": ev, "impl": [beta, float(c.variance)],
+            return bad("impl!=model:fit", {"index": ikind, "node": v, "evidence": ev, "impl": [beta, float(c.variance)],
                                              "model": [[float(x) for x in mb], float(mv)]})
         # the normal equations on the fitted coefficients (what C20_fit_normal_equations states)
         if not np.allclose(X.T @ X @ np.array(beta), X.T @ col[v], rtol=1e-8, atol=1e-8):
             return bad("impl!=spec:fit-normal-equations", {"node": v})
-        tags.append("parents=%d" % len(ev))
+        if ikind == case.get("indexes", ["range"])[0]:
+            tags.append("parents=%d" % len(ev))
         if ev:
             nontrivial = True
-    key = common.canon_key(["fit", n, sorted(map(tuple, case["edges"])), case["rows"], case["cols"]])
-    return ok(nontrivial=nontrivial, key=key, tags=tags)
+    return nontrivial
 
 
 # ------------------------------------------------------------------ Gaussian / canonical distributions
